@@ -92,7 +92,11 @@ pub fn check(c: &Case, obs: &mut Obs) -> Result<(), Fail> {
         Fit::Height(h) => h,
         Fit::Both(w, h) => w.min(h),
     };
-    let ib = image_builder(&c.cfg, c.fit);
+    let mut ib = image_builder(&c.cfg, c.fit);
+    if c.cfg.warm.is_some() {
+        catch(|| c.cfg.warm_up_image_builder(&mut ib, &built.qr)).map_err(|p| Fail { sig: panic_sig(&p), msg: format!("warm-up render panicked: {}", p) })?;
+        obs.label("renderer_instance_reused");
+    }
     let pm = catch(|| ib.to_pixmap(&built.qr)).map_err(|p| Fail { sig: panic_sig(&p), msg: format!("to_pixmap panicked: {} ({})", p, to_json(c)) })?;
     ensure!(
         pm.width() == want_side && pm.height() == want_side,
@@ -257,13 +261,14 @@ pub fn case_strategy(versions: &'static [usize]) -> BoxedStrategy<Case> {
         prop_oneof![1 => Just(None), 5 => (0usize..6).prop_map(Some)],
         colours(),
         prop_oneof![Just(None), (0u8..8).prop_map(Some)],
+        warm_strategy(),
     )
-        .prop_flat_map(|(v, li, margin, shape, (mc, bg), mask)| {
+        .prop_flat_map(|(v, li, margin, shape, (mc, bg), mask, warm)| {
             let cell = Cell { version: v, level: Level::from_index(li), mode: Mode::Byte };
             let s = size(v) + 2 * margin.unwrap_or(4);
             (case_in_cell(cell, Force { mode: false, level: true, version: true }, mask), fit_strategy(s)).prop_map(move |((build, _), fit)| Case {
                 build,
-                cfg: SvgCfg { margin, layers: shape.map(|s| vec![(s, None)]).unwrap_or_default(), module_color: mc.clone(), background: bg.clone(), ..SvgCfg::default() },
+                cfg: SvgCfg { margin, layers: shape.map(|s| vec![(s, None)]).unwrap_or_default(), module_color: mc.clone(), background: bg.clone(), warm, ..SvgCfg::default() },
                 fit,
             })
         })
